@@ -1098,7 +1098,7 @@ class Interp:
 
     def e_Yield(self, n, env):
         v = self.eval(n.value, env) if n.value is not None else None
-        self.V.on_yield(self, v, n)
+        self.V.on_yield(self, v, n, env)
         return None
 
     def e_YieldFrom(self, n, env):
